@@ -16,7 +16,7 @@ state of one run cannot hide or fake a difference in another)."""
 import os, sys, json, pickle, itertools, functools, traceback
 
 ID = 'C16'
-COQ_ROOTS = ['Props/C16.v', 'GenProps/C16_tables.v']
+COQ_ROOTS = ['Props/C16.v', 'GenProps/C16_tables.v', 'GenProps/Profiles_consts.v']
 RULE = ('(a) parameter grid: every shipped handler class + a user handler class x device_params '
         '(ssh_subsystem_name x config_mode x with_ns = 7x4x8) x ignore_errors pool x nc_params pool, all 7 getters compared '
         'with the model; nexus subsystem list on a string pool; (b) histories over slots: constructions (by advertised / '
